@@ -1119,6 +1119,14 @@ func visitCases(r *Run, rng *Rng, kind string, n int, diskParent string, defs *s
 				}
 			}
 		}
+		// resource files (withFiles: the build also reads resources; compared with load_tree)
+		withFiles := it%2 == 1
+		if withFiles {
+			for _, d := range dirs {
+				tree.at(d).put("vr.yaml", &vnode{kind: vFile, content: fmt.Sprintf("apiVersion: v1\nkind: ConfigMap\nmetadata:\n  name: r-%s\n", strings.Join(d, "-"))})
+			}
+		}
+		var kustTerms []string
 		// kustomizations
 		var basesTerm []string
 		basesDesc := map[string][]string{}
@@ -1147,6 +1155,14 @@ func visitCases(r *Run, rng *Rng, kind string, n int, diskParent string, defs *s
 						ref = perturb(g, ref)
 					}
 				}
+				if withFiles && g.Chance(45) {
+					// a resource file: mostly the directory's own, sometimes another directory's (outside the root: refused)
+					if g.Chance(70) {
+						ref = "vr.yaml"
+					} else {
+						ref = relPath(d, append(append([]string{}, dirs[g.Intn(len(dirs))]...), "vr.yaml"))
+					}
+				}
 				if ref == "" || strings.HasPrefix(ref, "/") || isNetworkish(ref) || ref == "kustomization.yaml" {
 					ref = "."
 				}
@@ -1161,6 +1177,7 @@ func visitCases(r *Run, rng *Rng, kind string, n int, diskParent string, defs *s
 				}
 			}
 			tree.at(d).put("kustomization.yaml", &vnode{kind: vFile, content: b.String()})
+			kustTerms = append(kustTerms, fmt.Sprintf("(%s, %s)", coqStr(b.String()), coqStrList(refs)))
 			root := absPrefix + "/" + strings.Join(d, "/")
 			basesTerm = append(basesTerm, fmt.Sprintf("(%s, %s)", coqStr(root), coqStrList(refs)))
 			basesDesc[strings.Join(d, "/")] = refs
@@ -1196,7 +1213,20 @@ func visitCases(r *Run, rng *Rng, kind string, n int, diskParent string, defs *s
 		if o.cls == ClsPanic {
 			r.Violation(OracleViolation{Law: "no_panic", Class: "C05/panic/bases", Detail: o.msg, Replay: desc})
 		}
-		// law (C05_chain_roots_distinct at build level): along the recursion no root is entered while it is on the stack
+		if withFiles {
+			// the same resource read twice is an id conflict of the build, which the loading model does not know
+			if strings.Contains(o.msg, "already registered id") || strings.Contains(o.msg, "conflict") {
+				r.Meta.Skipped++
+				continue
+			}
+			reads := ov.reads
+			if o.cls != ClsOk {
+				reads = nil
+			}
+			r.AddCase(fmt.Sprintf("(K_build %s %s [%s] %s %s)", fsTerm, coqStr(target), strings.Join(kustTerms, "; "), o.cls, coqStrList(reads)), desc, o.cls == ClsOk && len(reads) > 1)
+			r.Count("buildreads_"+kind, fmt.Sprintf("%s/%d", o.cls, len(reads)))
+			continue
+		}
 		r.AddCase(fmt.Sprintf("(K_visit %s %s [%s] %s %s)", fsTerm, coqStr(target), strings.Join(basesTerm, "; "), o.cls, coqStrList(trace)), desc, o.cls == ClsOk && len(trace) > 1)
 		r.Count("visit_"+kind, fmt.Sprintf("%s/%d", o.cls, len(trace)))
 	}
@@ -1388,7 +1418,7 @@ func runC05(r *Run, rng *Rng, tier string) error {
 	if err := linkChainCases(r, diskParent, &defs); err != nil {
 		return err
 	}
-	nVisit := 120
+	nVisit := 160
 	if tier == "thorough" {
 		nVisit = 1500
 	}
